@@ -9,6 +9,7 @@ CONSTANTS
   RawCap = 1
   WarmCap = 1
   Slack = {0}
+  FetchListens = TRUE
   DecListens = TRUE
 INVARIANT AncestorCorrect
 INVARIANT ProbesInRange
